@@ -66,3 +66,124 @@ Proof.
   apply negb_true_iff in H. unfold char_roundtrips in H.
   intros E. rewrite E, N.eqb_refl in H. discriminate.
 Qed.
+
+(* ---------- parse_input ---------- *)
+From Ink.Data Require Import PathProofs.
+
+Definition no_ws (t : text) : Prop := Forall (fun c => is_unicode_ws c = false) t.
+
+Lemma split_ws_aux_nows p cur : no_ws p -> rev cur ++ p <> [] ->
+  split_ws_aux p cur = [rev cur ++ p].
+Proof.
+  intros Hp. revert cur. induction Hp as [|c p Hc _ IH]; intros cur Hne.
+  - cbn [split_ws_aux]. rewrite app_nil_r in *. destruct cur as [|x cur]; [cbn in Hne; congruence|reflexivity].
+  - cbn [split_ws_aux]. rewrite Hc.
+    rewrite (IH (c :: cur)); cbn [rev]; rewrite <- app_assoc; cbn [app]; [reflexivity|].
+    intros E. apply app_eq_nil in E as [_ E]. discriminate.
+Qed.
+
+Lemma split_whitespace_word t : no_ws t -> t <> [] -> split_whitespace t = [t].
+Proof. intros H Hne. unfold split_whitespace. now rewrite (split_ws_aux_nows t [] H). Qed.
+
+Lemma trim_nows t : no_ws t -> trim t = t.
+Proof.
+  intros H. unfold trim, trim_start, trim_end.
+  assert (Hdw : forall l, no_ws l -> drop_while is_unicode_ws l = l).
+  { intros l Hl. destruct Hl as [|c l Hc _]; [reflexivity|]. cbn [drop_while]. rewrite Hc. reflexivity. }
+  rewrite (Hdw _ H). rewrite Hdw; [apply rev_involutive|].
+  apply Forall_forall. intros x Hx. apply in_rev in Hx.
+  unfold no_ws in H. rewrite Forall_forall in H. now apply H.
+Qed.
+
+Lemma digits_no_ws t : all_digits t -> no_ws t.
+Proof.
+  intros H. eapply Forall_impl; [|exact H]. intros c Hc. cbv beta in Hc.
+  unfold is_unicode_ws.
+  repeat match goal with
+  | |- context [N.eqb c ?k] => destruct (N.eqb_spec c k); [lia|]
+  | |- context [N.leb ?a ?b] => destruct (N.leb_spec a b); try lia
+  end; reflexivity.
+Qed.
+
+Lemma digits_not_keyword t kw : all_digits t -> t <> [] ->
+  (forall c, In c kw -> 97 <= c) -> lower_is t kw = false.
+Proof.
+  intros Hd Hne Hkw. destruct t as [|c t]; [congruence|].
+  unfold lower_is. cbn [map]. destruct kw as [|k kw]; [reflexivity|].
+  cbn [text_eqb]. assert (Hc : 48 <= c <= 57) by (inversion Hd; assumption).
+  assert (Hk : 97 <= k) by (apply Hkw; now left).
+  unfold ascii_lower. destruct ((65 <=? c) && (c <=? 90)) eqn:E.
+  - apply andb_prop in E as [E _]. apply N.leb_le in E. lia.
+  - destruct (N.eqb_spec c k); [lia|reflexivity].
+Qed.
+
+(* 1-based numerals select the choice with that number *)
+Lemma parse_input_number i : i < 18446744073709551615 -> parse_input (show_N (i + 1)) = IChoice i.
+Proof.
+  intros Hi. pose proof (show_N_digits (i + 1)) as Hd. pose proof (show_N_nonempty (i + 1)) as Hne.
+  unfold parse_input.
+  rewrite !(digits_not_keyword _ _ Hd Hne);
+    try (intros c Hc; cbn in Hc; repeat (destruct Hc as [<-|Hc]; [lia|]); contradiction).
+  cbn [orb]. rewrite (split_whitespace_word _ (digits_no_ws _ Hd) Hne).
+  rewrite (trim_nows _ (digits_no_ws _ Hd)), parse_usize_show by lia.
+  destruct (N.leb_spec 1 (i + 1)); [|lia]. f_equal. lia.
+Qed.
+
+(* `-> path` diverts *)
+Lemma parse_input_divert p : p <> [] -> no_ws p -> parse_input (T "-> " ++ p) = IDivert p.
+Proof.
+  intros Hne Hp. unfold parse_input, lower_is. cbn [T app map]. cbn [text_eqb].
+  change (ascii_lower (N_of_ascii "-")) with 45.
+  change (N.eqb 45 (N_of_ascii "q")) with false. change (N.eqb 45 (N_of_ascii "e")) with false.
+  change (N.eqb 45 (N_of_ascii "h")) with false. cbn [andb orb].
+  unfold split_whitespace. cbn [split_ws_aux].
+  change (is_unicode_ws (N_of_ascii "-")) with false. change (is_unicode_ws (N_of_ascii ">")) with false.
+  change (is_unicode_ws (N_of_ascii " ")) with true. cbv iota. cbn [rev app].
+  rewrite (split_ws_aux_nows p [] Hp) by (cbn [rev app]; exact Hne).
+  cbn [rev app]. reflexivity.
+Qed.
+
+(* quit / exit / help in any letter case *)
+Lemma parse_input_keywords t :
+  (map ascii_lower t = T "quit" \/ map ascii_lower t = T "exit" -> parse_input t = IExit)
+  /\ (map ascii_lower t = T "help" -> parse_input t = IHelp).
+Proof.
+  unfold parse_input, lower_is. split.
+  - intros [E|E]; rewrite E; reflexivity.
+  - intros E. rewrite E. reflexivity.
+Qed.
+
+(* nothing else is ever taken for a choice or a divert *)
+Lemma parse_input_sound t :
+  (forall i, parse_input t = IChoice i -> parse_usize (trim t) = Some (i + 1))
+  /\ (forall p, parse_input t = IDivert p -> split_whitespace t = [T "->"; p]).
+Proof.
+  unfold parse_input.
+  destruct (lower_is t (T "quit") || lower_is t (T "exit")); [split; intros; discriminate|].
+  destruct (lower_is t (T "help")); [split; intros; discriminate|].
+  assert (Hnum : forall i,
+    match parse_usize (trim t) with
+    | Some n => if 1 <=? n then IChoice (n - 1) else IUnknown
+    | None => IUnknown
+    end = IChoice i -> parse_usize (trim t) = Some (i + 1)).
+  { intros i. destruct (parse_usize (trim t)) as [n|]; [|discriminate].
+    destruct (N.leb_spec 1 n); [|discriminate]. intros E. injection E as <-. f_equal. lia. }
+  assert (Hnod : forall p,
+    match parse_usize (trim t) with
+    | Some n => if 1 <=? n then IChoice (n - 1) else IUnknown
+    | None => IUnknown
+    end <> IDivert p).
+  { intros p. destruct (parse_usize (trim t)) as [n|]; [|discriminate].
+    destruct (1 <=? n); discriminate. }
+  destruct (split_whitespace t) as [|w0 [|w1 [|w2 ws]]]; split; intros x H;
+    try (now apply Hnum); try (now apply Hnod in H).
+  - destruct (text_eqb w0 (T "->")); [discriminate|now apply Hnum].
+  - destruct (text_eqb w0 (T "->")) eqn:E; [|now apply Hnod in H].
+    injection H as <-. apply text_eqb_eq in E. now subst.
+Qed.
+
+Example parse_input_examples :
+  parse_input (T "3") = IChoice 2 /\ parse_input (T "+1") = IChoice 0 /\ parse_input (T "0") = IUnknown
+  /\ parse_input (T "->  knot.stitch") = IDivert (T "knot.stitch") /\ parse_input (T "QuIt") = IExit
+  /\ parse_input (T "1 2") = IUnknown /\ parse_input (T "-> a b") = IUnknown.
+Proof. repeat split; reflexivity. Qed.
